@@ -6,7 +6,8 @@ the extractor on this run equal what the thread model assumes (`pollImpl`, `halt
 `stepT`: the flag alone decides, the consulted context only chooses the returned value, no
 step lowers the flag).  An edit that makes the halt test depend on the context the callee
 was handed, adds a second test, or lowers the flag anywhere in `eval` / `callFunction` /
-`callObject` breaks exactly one named lemma.
+`callObject` (its Go-level defer that runs the deferred calls of a frame included) breaks a
+named lemma.
 -/
 namespace Risor.C06
 open Risor.Generated.C06
@@ -38,5 +39,17 @@ theorem halt_never_lowered_by_eval_tie :
 theorem callee_ctx_reaches_eval_tie :
     registeredCallFunc = expectRegisteredCallFunc ∧ callFunctionFirstParam = expectCallFunctionFirstParam ∧
     callFunctionEvalArg = expectCallFunctionEvalArg ∧ callFunctionReassignsCtx = false := by decide
+
+/-- the deferred calls of a frame run under the flag as it is: `callFunction` has exactly one
+    Go-level `defer` that ranges over `callFrame.defers`, the loop is its first statement (no
+    early return: the deferred calls run however the frame is left, also when the halt test
+    stopped it), each partial is called through `vm.callObject` with the context
+    `callFunction` was handed — a nested `callFunction` / `eval` whose first instruction polls
+    —, and nothing in it reads or writes `vm.halt` (model: `leaveT` keeps the flag,
+    `leaveT_flags`; `Props.halt_stops_deferred_calls`; the forbidden variant is
+    `leaveLowering`, `Props.deferLowering_not_stopped`) -/
+theorem deferred_calls_run_under_the_flag_tie :
+    (deferRunnerCount = 1 ∧ deferRunnerLoopFirst = true ∧ deferRunnerCall = expectDeferRunnerCall) ∧
+    (deferRunnerTouchesHalt = false ∧ callFunctionHaltWrites = []) := by decide
 
 end Risor.C06
